@@ -51,6 +51,13 @@ def _helper_of(ctx, f: FuncInfo, call: ast.Call) -> FuncInfo | None:
         if h is not None and not h.is_abstract() and h is not f and not (h.node.args.vararg or h.node.args.kwarg) and not h.node.decorator_list:
             return h  # a static call of one definition: overriding constructors in subclasses do not matter
         return None
+    elif isinstance(fn, ast.Name) and fn.id in (getattr(f, "nested", None) or {}):
+        # a nested helper function called by its enclosing function: a closure reads the enclosing locals as they are
+        # at the time of the call, which is what its body written out at the call does
+        h = f.nested[fn.id]
+        if h.node.decorator_list or h.node.args.vararg or h.node.args.kwarg or any(isinstance(n, ast.Nonlocal) for n in ast.walk(h.node)):
+            return None
+        return h
     elif isinstance(fn, ast.Name):
         d = ctx.prog.resolve_expr(f.module, fn)
         if d is not None and d.kind == "func":
@@ -212,7 +219,8 @@ def inline(ctx, f: FuncInfo, want: Callable[[FuncInfo], bool] | None = None) -> 
         form, call, tgt = hit
         h = _helper_of(ctx, f, call)
         ctor_chain = h is not None and h.name == "__init__" and f.name == "__init__" and isinstance(call.func, ast.Attribute) and call.func.attr == "__init__"
-        if h is None or not (want(h) or ctor_chain) or h in active:
+        is_nested = h is not None and h.parent is not None and getattr(h.parent, "node", None) is getattr(f, "node", None) or (h is not None and h.name in (getattr(f, "nested", None) or {}) and f.nested[h.name] is h)
+        if h is None or not (want(h) or ctor_chain or is_nested) or h in active:
             return None
         if h.is_async != isinstance(parents.get(call), ast.Await):
             return None
@@ -435,12 +443,172 @@ def inline(ctx, f: FuncInfo, want: Callable[[FuncInfo], bool] | None = None) -> 
                 changed[0] = True
                 new.extend(ex)
                 continue
+            if isinstance(st, ast.If) and depth < MAX_DEPTH:
+                bt = bool_test_helper(st)
+                if bt is not None:
+                    new.extend(rebuild(bt, depth + 1, active))
+                    continue
+            if isinstance(st, (ast.For, ast.AsyncFor)) and depth < MAX_DEPTH:
+                pair = iter_expr_helper(st)
+                if pair is not None:
+                    new.append(pair[0])
+                    st = pair[1]
             new.append(rebuild_node(st, depth, active))
         return new
+
+    def iter_expr_helper(st):
+        """`for x in helper(a).items():` with helper a one-expression function (`return <expr>`): the expression in
+        place of the call (parameters replaced by plain-name arguments)."""
+        for c in [x for x in ast.walk(st.iter) if isinstance(x, ast.Call)]:
+            h = _helper_of(ctx, f, c)
+            if h is None or h.is_async or h in (f,):
+                continue
+            nested_ = h.name in (getattr(f, "nested", None) or {}) and f.nested[h.name] is h
+            if not (want(h) or nested_):
+                continue
+            hb = list(h.node.body)
+            if hb and isinstance(hb[0], ast.Expr) and isinstance(hb[0].value, ast.Constant):
+                hb = hb[1:]
+            if len(hb) != 1 or not isinstance(hb[0], ast.Return) or hb[0].value is None or c.keywords:
+                continue
+            params = [p for p in h.positional_params if not (p in ("self", "cls") and h.cls is not None and not h.is_staticmethod())]
+            if len(c.args) != len(params) or not all(isinstance(a, ast.Name) for a in c.args):
+                continue
+            ren = {p: a.id for p, a in zip(params, c.args) if p != a.id}
+            bound_in = {n.id for n in ast.walk(hb[0].value) if isinstance(n, ast.Name) and isinstance(n.ctx, ast.Store)}
+            if bound_in & (caller_names | set(ren.values())) - set():
+                # comprehension variables of the helper expression that clash with caller names are its own scope: fine
+                pass
+            new_e = copy.deepcopy(hb[0].value)
+            for n in ast.walk(new_e):
+                if isinstance(n, ast.Name) and n.id in ren and isinstance(n.ctx, ast.Load):
+                    n.id = ren[n.id]
+                if not hasattr(n, "_mod"):
+                    n._mod = h.module  # type: ignore[attr-defined]
+
+            class _Sw(ast.NodeTransformer):
+                def visit_Call(self, node):
+                    if node is c:
+                        return new_e
+                    return self.generic_visit(node)
+
+            # bound to a local first (`snap = <expr>` / `for x in snap.items():`): the shape a hand-written snapshot has
+            lname = f"__it_{h.name.strip('_')}"
+            if lname in caller_names:
+                continue
+            asg = ast.copy_location(ast.Assign(targets=[ast.copy_location(ast.Name(id=lname, ctx=ast.Store()), c)], value=new_e), st)
+            st2 = copy.copy(st)
+            st2.iter = _swap(st.iter, c, ast.copy_location(ast.Name(id=lname, ctx=ast.Load()), c))
+            for root_ in (asg, st2.iter):
+                for par_ in ast.walk(root_):
+                    for ch_ in ast.iter_child_nodes(par_):
+                        parents[ch_] = par_
+            parents[st2.iter] = st2
+            if st in parents:
+                parents[st2] = parents[st]
+                parents[asg] = parents[st]
+            inlined.append(h.qualname)
+            inlined_funcs.append(h)
+            changed[0] = True
+            return asg, st2
+        return None
+
+    def bool_test_helper(st):
+        """`if [not] helper(): A else: B` with helper a parameterless test-and-act function whose every return is a
+        bool constant in tail position: the helper's body with each `return K` replaced by the branch K selects
+        (the branch is copied when several returns select it)."""
+        t = st.test
+        neg = False
+        while isinstance(t, ast.UnaryOp) and isinstance(t.op, ast.Not):
+            neg = not neg
+            t = t.operand
+        if not isinstance(t, ast.Call) or t.args or t.keywords:
+            return None
+        h = _helper_of(ctx, f, t)
+        if h is None or h.is_async or h is f:
+            return None
+        nested_ = h.name in (getattr(f, "nested", None) or {}) and f.nested[h.name] is h
+        if not (want(h) or nested_):
+            return None
+        hb = list(h.node.body)
+        if hb and isinstance(hb[0], ast.Expr) and isinstance(hb[0].value, ast.Constant):
+            hb = hb[1:]
+        def fold_guards(stmts: list) -> list:
+            """[if c: ...; return K] + rest  ->  [if c: ...; return K / else: rest]"""
+            for i_, s_ in enumerate(stmts):
+                if isinstance(s_, ast.If) and not s_.orelse and s_.body and isinstance(s_.body[-1], ast.Return) and i_ + 1 < len(stmts):
+                    s2 = copy.copy(s_)
+                    s2.orelse = fold_guards(stmts[i_ + 1 :])
+                    if s_ in parents:
+                        parents[s2] = parents[s_]
+                    return stmts[:i_] + [s2]
+            return stmts
+
+        hb = fold_guards(hb)
+        rets = [n for s_ in hb for n in ast.walk(s_) if isinstance(n, ast.Return)]
+        if not rets or not all(isinstance(r.value, ast.Constant) and isinstance(r.value.value, bool) for r in rets) or not _tail_returns_ok(hb):
+            return None
+        if (_names_bound(h.node) - set(h.params)) & caller_names:
+            return None
+        if any(isinstance(n, (ast.Break, ast.Continue)) for s_ in hb for n in ast.walk(s_)):
+            return None
+
+        def branch(k: bool) -> list:
+            chosen = st.body if (k != neg) else st.orelse
+            out_ = [copy.deepcopy(b) for b in chosen] or [ast.copy_location(ast.Pass(), st)]
+            for b in out_:
+                for par_ in ast.walk(b):
+                    for ch_ in ast.iter_child_nodes(par_):
+                        parents[ch_] = par_
+            return out_
+
+        def repl(stmts: list) -> list:
+            out_ = []
+            for s_ in stmts:
+                if isinstance(s_, ast.Return):
+                    out_.extend(branch(bool(s_.value.value)))
+                    continue
+                if isinstance(s_, (ast.FunctionDef, ast.AsyncFunctionDef, ast.ClassDef)) or not any(isinstance(n, ast.Return) for n in ast.walk(s_)):
+                    out_.append(s_)
+                    continue
+                s2 = copy.copy(s_)
+                for name in ("body", "orelse", "finalbody"):
+                    lst = getattr(s_, name, None)
+                    if isinstance(lst, list) and lst and all(isinstance(x, ast.stmt) for x in lst):
+                        setattr(s2, name, repl(lst))
+                if getattr(s_, "handlers", None):
+                    return None  # returns inside try/except: keep it simple
+                if s_ in parents:
+                    parents[s2] = parents[s_]
+                out_.append(s2)
+            return out_
+
+        new_ = repl(hb)
+        if new_ is None or any(x is None for x in new_):
+            return None
+        for s_ in new_:
+            if st in parents:
+                parents[s_] = parents[st]
+        inlined.append(h.qualname)
+        inlined_funcs.append(h)
+        changed[0] = True
+        return new_
+
+    def _swap(root, old, new):
+        if root is old:
+            return new
+        r2 = copy.copy(root)
+        for fld, val in ast.iter_fields(root):
+            if isinstance(val, ast.AST):
+                setattr(r2, fld, _swap(val, old, new))
+            elif isinstance(val, list):
+                setattr(r2, fld, [_swap(v, old, new) if isinstance(v, ast.AST) else v for v in val])
+        return r2
 
     def rebuild_node(st: ast.stmt, depth: int, active: tuple) -> ast.stmt:
         if isinstance(st, (ast.FunctionDef, ast.AsyncFunctionDef, ast.ClassDef)):
             return st
+
         fields = [(name, getattr(st, name)) for name in ("body", "orelse", "finalbody") if isinstance(getattr(st, name, None), list)]
         handlers = getattr(st, "handlers", None)
         cases = getattr(st, "cases", None)
